@@ -476,8 +476,11 @@ static void run_specs(Exec &x, const std::vector<RunSpec> &specs, int out_fd)
         v.op = x.sh->cur_op;
         std::string note((const char *)x.sh->note, strnlen((const char *)x.sh->note, 255));
         v.trigger = x.w->crash_trigger(*plan, v.op, note);
-        out.violations.push_back(v);
-        out.nontrivial = true;
+        if (x.w->crash_in_domain(x.prop, *plan, v.op, note)) {
+            out.violations.push_back(v);
+            out.nontrivial = true;
+        } else
+            out.other["outside_domain:" + v.kind + ":" + v.site]++;
         // the event digest of a crashed run: class + op, so that reruns can be compared
         out.events.str(v.cls());
         out.events.i64(v.op);
